@@ -172,3 +172,13 @@ func countBackendEvents(ev []rec.Event) int64 {
 }
 
 func hexq(b []byte) string { return fmt.Sprintf("%q", string(b)) }
+
+// logPanic returns the first server error-log line that reports a recovered panic ("" when none).
+func logPanic(evs []rec.Event) string {
+	for _, e := range evs {
+		if e.Kind == "log" && strings.Contains(strings.ToLower(e.A), "panic") {
+			return strings.TrimSpace(e.A)
+		}
+	}
+	return ""
+}
